@@ -328,6 +328,123 @@ pub fn maybe_check(ng: &NormGraph, group: Group, selector: u64, out: &mut Outcom
     check_name_type_independence(ng, group, out);
 }
 
+/// C12: is_partition / modularity on a family of blocks given by node index (None = a name that is
+/// not in the graph; an index may repeat within a block only through separate blocks).
+pub fn check_partition_name_type(ng: &NormGraph, fam: &[Vec<Option<usize>>], weighted: bool, resolution: Option<f64>, out: &mut Outcome) {
+    use graphrs::algorithms::community::partitions;
+    if !out.failures.is_empty() || ng.n == 0 || ng.n > 64 {
+        return;
+    }
+    fn run<T: Name>(ng: &NormGraph, mk: &dyn Fn(usize) -> T, foreign: T, fam: &[Vec<Option<usize>>], weighted: bool, resolution: Option<f64>) -> (bool, Result<f64, String>) {
+        let g = build_generic::<T>(ng, mk);
+        let communities: Vec<HashSet<T>> = fam.iter().map(|b| b.iter().map(|x| x.map_or(foreign.clone(), mk)).collect()).collect();
+        (partitions::is_partition(&g, &communities), partitions::modularity(&g, &communities, weighted, resolution).map_err(|e| err_kind(&e)))
+    }
+    let names = ng.names.clone();
+    let mk_s = move |i: usize| names[i].clone();
+    let a = run::<String>(ng, &mk_s, crate::model::ABSENT.to_string(), fam, weighted, resolution);
+    let b = match guard(|| run::<Key>(ng, &key_of, Key { rank: 999, id: 9999 }, fam, weighted, resolution)) {
+        Ok(b) => b,
+        Err(p) => {
+            out.fail(format!("name_type[Partitions]/panic/{}", panic_class(&p)), format!("with a user-defined name type: {}", p));
+            return;
+        }
+    };
+    out.api_calls += 4;
+    out.class("name_type_independence_checked");
+    out.check(a.0 == b.0, "is_partition/name_type/structure_differs", || format!("String names: {} user-defined name type: {} for blocks {:?}", a.0, b.0, fam));
+    match (&a.1, &b.1) {
+        (Ok(x), Ok(y)) => {
+            out.check(approx(*x, *y, 1e-9, 1e-12) || (x.is_nan() && y.is_nan()), "modularity/name_type/values_differ", || format!("String names: {} user-defined name type: {}", x, y));
+        }
+        (Err(x), Err(y)) => {
+            out.check(x == y, "modularity/name_type/structure_differs", || format!("{} vs {}", x, y));
+        }
+        (x, y) => out.fail("modularity/name_type/structure_differs", format!("String names: {:?} user-defined name type: {:?}", x, y)),
+    }
+}
+
+/// C13 with a user-defined node-name type: the result may legitimately differ from the
+/// String-named run (ties are broken by name order), so the statement's own validity conditions
+/// are checked: every level is a partition of the node set, each level coarsens the previous one,
+/// and (single-edge graphs) the modularity computed by the oracle never decreases.
+pub fn check_louvain_name_type(ng: &NormGraph, weighted: bool, res: Option<f64>, thr: Option<f64>, seed: u64, budget: u64, modularity: &dyn Fn(&[Vec<usize>]) -> f64, out: &mut Outcome) {
+    use graphrs::algorithms::community::louvain;
+    if !out.failures.is_empty() || ng.n == 0 || ng.n > 64 {
+        return;
+    }
+    let g = build_generic::<Key>(ng, &key_of);
+    graphrs::verif::set_step_budget(Some(budget));
+    let r = guard(|| louvain::louvain_partitions(&g, weighted, res, thr, Some(seed)));
+    graphrs::verif::set_step_budget(None);
+    out.api_calls += 1;
+    out.class("name_type_independence_checked");
+    let levels = match r {
+        Err(p) => {
+            let class = if p.contains(graphrs::verif::STEP_BUDGET_EXHAUSTED) { "step_budget".to_string() } else { panic_class(&p) };
+            out.fail(format!("louvain_partitions/name_type/panic/{}", class), format!("with a user-defined name type: {}", p));
+            return;
+        }
+        Ok(Err(e)) => {
+            out.fail(format!("louvain_partitions/name_type/error/{:?}", e.kind), e.message.clone());
+            return;
+        }
+        Ok(Ok(l)) => l,
+    };
+    if levels.is_empty() {
+        out.fail("louvain_partitions/name_type/levels/empty_list", "no level returned");
+        return;
+    }
+    let mut idx_levels: Vec<Vec<BTreeSet<usize>>> = vec![];
+    for (k, l) in levels.iter().enumerate() {
+        let mut seen = vec![0usize; ng.n];
+        let mut lv = vec![];
+        for c in l {
+            if c.is_empty() {
+                out.fail("louvain_partitions/name_type/partition/empty_community", format!("level {}", k));
+                return;
+            }
+            let mut set = BTreeSet::new();
+            for x in c {
+                let i = x.id as usize;
+                if i >= ng.n || key_of(i) != *x {
+                    out.fail("louvain_partitions/name_type/partition/foreign_node", format!("level {}: {:?}", k, x));
+                    return;
+                }
+                seen[i] += 1;
+                set.insert(i);
+            }
+            lv.push(set);
+        }
+        if seen.iter().any(|c| *c != 1) {
+            out.fail("louvain_partitions/name_type/partition/not_a_partition", format!("level {}: node multiplicities {:?}", k, seen));
+            return;
+        }
+        idx_levels.push(lv);
+    }
+    for k in 1..idx_levels.len() {
+        for c in &idx_levels[k - 1] {
+            if !idx_levels[k].iter().any(|d| c.is_subset(d)) {
+                out.fail("louvain_partitions/name_type/nested/community_split_at_next_level", format!("level {} community {:?} is not inside a community of level {}", k - 1, c, k));
+                return;
+            }
+        }
+    }
+    if !ng.multi {
+        let singles: Vec<Vec<usize>> = (0..ng.n).map(|i| vec![i]).collect();
+        let mut prev = modularity(&singles);
+        for (k, l) in idx_levels.iter().enumerate() {
+            let fam: Vec<Vec<usize>> = l.iter().map(|c| c.iter().copied().collect()).collect();
+            let q = modularity(&fam);
+            if q < prev - 1e-9 {
+                out.fail("louvain_partitions/name_type/modularity/decreases", format!("level {}: modularity {} after {}", k, q, prev));
+                return;
+            }
+            prev = q;
+        }
+    }
+}
+
 fn trunc(s: &str) -> String {
     if s.len() > 300 {
         format!("{}...", &s[..300])
